@@ -140,6 +140,13 @@ class MinErrorFlow():
             self.G = self.G_internal
             self.is_acyclic = False
             self.edges_to_ignore = set(edges_to_ignore_internal)
+            # There is no global source/sink here, so the additional start/end nodes are exempted
+            # from flow conservation directly in _encode_flow
+            self.additional_starts_cyclic = set(additional_starts_internal)
+            self.additional_ends_cyclic = set(additional_ends_internal)
+            if not (self.additional_starts_cyclic | self.additional_ends_cyclic).issubset(self.G.nodes()):
+                utils.logger.error(f"{__name__}: Some nodes in additional_starts or additional_ends are not in the graph.")
+                raise ValueError("Some nodes in additional_starts or additional_ends are not in the graph.")
             if self.sparsity_lambda != 0:
                 utils.logger.error(f"{__name__}: You cannot set sparsity_lambda != 0 for a graph with cycles.")
                 raise ValueError(f"You cannot set sparsity_lambda != 0 for a graph with cycles.")
@@ -227,18 +234,25 @@ class MinErrorFlow():
             if self.G.in_degree(node) == 0 or self.G.out_degree(node) == 0:
                 continue
             # Flow conservation constraint
-            self.solver.add_constraint(
-                self.solver.quicksum(
+            in_minus_out = self.solver.quicksum(
                     self.edge_vars[(u, v)]
                     for (u, v) in self.G.in_edges(node)
-                )
-                - self.solver.quicksum(
+                ) - self.solver.quicksum(
                     self.edge_vars[(u, v)]
                     for (u, v) in self.G.out_edges(node)
                 )
-                == 0,
-                name=f"flow_conservation_{node}",
-            )
+            # In a graph with cycles, an additional start can emit flow and an additional end can absorb flow
+            # (in a DAG this is handled by the edges from/to the global source/sink of the stDAG)
+            is_start = (not self.is_acyclic) and node in self.additional_starts_cyclic
+            is_end = (not self.is_acyclic) and node in self.additional_ends_cyclic
+            if is_start and is_end:
+                continue
+            elif is_start:
+                self.solver.add_constraint(in_minus_out <= 0, name=f"flow_conservation_{node}")
+            elif is_end:
+                self.solver.add_constraint(in_minus_out >= 0, name=f"flow_conservation_{node}")
+            else:
+                self.solver.add_constraint(in_minus_out == 0, name=f"flow_conservation_{node}")
         
         # Encoding the edge error variables
         for u, v, data in self.G.edges(data=True):
